@@ -182,9 +182,10 @@ class C16(Check):
                 "Pox.C16.ip6_rejects_witnesses", "Pox.C16.eth_loose12_rejected", "Pox.C16.eth_long_group_defect",
                 "Pox.C16.eth_int_leniency_defect", "Pox.C16.cidr_leniency_defect",
                 "Pox.C16.ip6_parse_spec", "Pox.C16.ip6_unsupported_witnesses", "Pox.C16.ip4_parse_spec", "Pox.C16.classful_inference",
-                "Pox.C16.hash_consistent", "Pox.C16.eth_parse_spec", "Pox.C16.eth_seq", "Pox.C16.eth_seq_length_defect",
+                "Pox.C16.eth_parse_spec", "Pox.C16.eth_seq", "Pox.C16.eth_seq_length_defect",
                 "Pox.C16.ip6_strict_iff", "Pox.C16.ip6_strict_roundtrip", "Pox.C16.eth_strict_iff", "Pox.C16.eth_seq_strict_iff",
-                "Pox.C16.cidr_strict", "Pox.C16.cidr6_strict"]
+                "Pox.C16.cidr_strict", "Pox.C16.cidr6_strict", "Pox.C16.cidr6_text", "Pox.C16.get_network", "Pox.C16.in_network_text",
+                "Pox.C16.in_network6_text", "Pox.C16.ip6_num_roundtrip", "Pox.C16.ip6_parse_length", "Pox.C16.ip6_construct_print"]
     anchors = [("pox/lib/addresses.py", "_compare_helper"), ("pox/lib/addresses.py", "_AddrBase.__eq__"), ("pox/lib/addresses.py", "_AddrBase.__ne__"),
                ("pox/lib/addresses.py", "_AddrBase.__lt__"), ("pox/lib/addresses.py", "_AddrBase.__gt__"), ("pox/lib/addresses.py", "_AddrBase.__le__"),
                ("pox/lib/addresses.py", "_AddrBase.__ge__"), ("pox/lib/addresses.py", "_AddrBase.__delattr__"),
@@ -211,7 +212,8 @@ class C16(Check):
                     "exact shapes recorded in the evidence); the driver evaluates the matching model functions and the correspondence validates the choice",
                     "little-endian host (struct 'i'/'I' native formats in IPAddr)",
                     "harness references: ipaddress module, rfc5952() and the mask/membership one-liners in harness/c16.py"]
-    assumptions = ["text is ASCII (int() also accepts Unicode digits/whitespace: not generated, not modelled)",
+    assumptions = ["int() itself (ops `int`, `dpid_parse`) is modelled for ASCII text only; the address parsers are modelled over arbitrary code points "
+                   "(text reaches the driver as UTF-8 and is decoded there), EthAddr over the UTF-8 bytes of the text as the constructor does",
                    "little-endian host", "hash() is a function of _value (read from the code: `self._value.__hash__()`)",
                    "non-text constructor forms (list/tuple/None/copy) only checked by the oracle, not modelled"]
     design_ref = "DESIGN.md §5 C16"
@@ -230,6 +232,10 @@ class C16(Check):
                   "Phase 3: for the repaired variants (fixes/C16_*.diff; which ones the tree has is read off its source) accept <=> well-formed: "
                   "ip6_strict_iff (IPAddr6(text) = a iff the text denotes a), ip6_strict_roundtrip, eth_strict_iff, eth_seq_strict_iff, cidr_strict, cidr6_strict; "
                   "the IPv4 text repair makes the code's recogniser the canonical one of ip4_parse_spec. "
+                  "Phase 4: exact results of parse_cidr / IPAddr6.parse_cidr for every allow_host value and any decimal digit string (cidr_text, cidr6_text), "
+                  "get_network, inNetwork(text) for both families, from_num/num, parsed addresses are 16 bytes, construct->print->construct; "
+                  "hash_consistent is definitional (congruence) and not counted. The model is a set of pure functions over code points: call sequences in one "
+                  "process are compared call by call with it (no result may depend on earlier calls), and every malformed stream includes non-ASCII look-alikes. "
                   "Defects of the unrepaired code kept as decided witnesses: D15 (ip6_rejects_defect/_witnesses), EthAddr and parse_cidr leniency, eth_seq_length_defect.")
     level_note = ("Trusted: Lean kernel + propext/Classical.choice/Quot.sound, the hand-written model, the harness. The model is tied to the code only by the "
                   "differential run (all 33/129 masks, per-octet sweeps, all 256 IPv6 zero patterns x 12 print options, every Ethernet form, dpid boundaries, "
@@ -645,9 +651,9 @@ class C16(Check):
         for _ in range(R(250, 6000)):
             a = rng.getrandbits(32); b = rng.randrange(33)
             n = a & ~((1 << (32 - b)) - 1)
-            q = lambda v: ".".join(map(str, (v & 0xffffffff).to_bytes(4, "big")))
-            msk = q(((1 << b) - 1) << (32 - b))
-            pool = [q(a) + "/%d" % b, q(n) + "/%d" % b, q(a) + "/" + msk, q(n) + "/" + msk, q(a), q(n), "255.255.255.255/%d" % b, "255.255.255.255/" + msk]
+            dq = lambda v: ".".join(map(str, (v & 0xffffffff).to_bytes(4, "big")))
+            msk = dq(((1 << b) - 1) << (32 - b))
+            pool = [dq(a) + "/%d" % b, dq(n) + "/%d" % b, dq(a) + "/" + msk, dq(n) + "/" + msk, dq(a), dq(n), "255.255.255.255/%d" % b, "255.255.255.255/" + msk]
             calls = []
             for _ in range(rng.randrange(2, 9)):
                 k = rng.randrange(6); t = rng.choice(pool)
